@@ -46,6 +46,8 @@ pub struct MockTp {
     pub fail_send: Arc<AtomicBool>,
     /// virtual milliseconds the FIRST send takes (connection set-up, a slow first write); 0 = immediate
     pub first_send_delay_ms: Arc<std::sync::atomic::AtomicU64>,
+    /// the first send returns this long after its bytes went out (a flush that has to wait)
+    pub first_send_linger_ms: Arc<std::sync::atomic::AtomicU64>,
 }
 
 impl MockTp {
@@ -60,6 +62,7 @@ impl MockTp {
             start,
             fail_send: Arc::new(AtomicBool::new(false)),
             first_send_delay_ms: Default::default(),
+            first_send_linger_ms: Default::default(),
         }
     }
     pub fn tcp(log: WireLog, start: tokio::time::Instant, remote: SocketAddr) -> Self {
@@ -73,6 +76,7 @@ impl MockTp {
             start,
             fail_send: Arc::new(AtomicBool::new(false)),
             first_send_delay_ms: Default::default(),
+            first_send_linger_ms: Default::default(),
         }
     }
 }
@@ -118,6 +122,10 @@ impl Transport for MockTp {
         }
         let ms = (tokio::time::Instant::now() - self.start).as_millis() as u64;
         self.log.lock().push((ms, target, message.to_vec(), next_seq()));
+        let l = self.first_send_linger_ms.swap(0, Ordering::SeqCst);
+        if l > 0 {
+            tokio::time::sleep(Duration::from_millis(l)).await;
+        }
         Ok(())
     }
 }
